@@ -353,14 +353,18 @@ def run(chk, repo):
 
     # ------------------------------------------------------------------ i
     from sa.cfg import CFG as _CFG
-    chk.rule('C05.i', 'R-COVER: every out-edge of a visited node is staged unless it leads to the stop sentinel (identity)', 6)
+    # floor: one instance per staging function (4 in the reference tree; some have more than one loop - merging two identical loops of
+    # one function is a refactoring, a function losing all its loops is not)
+    chk.rule('C05.i', 'R-COVER: every out-edge of a visited node is staged unless it leads to the stop sentinel (identity)', 4)
     nst = 0
+    staged_fns = set()
     for fn in repo.funcs_in('svgraph.PeptideVariantGraph'):
         if not fn.name.startswith('call_and_stage'):
             continue
         loops = [l for l in walk_no_nested(fn.node) if isinstance(l, ast.For) and unparse(l.iter) == 'target_node.out_nodes']
         if not loops:
             continue
+        staged_fns.add(fn.name)
         chk.uses(fn)
         c = _CFG(fn.node)
         for li, lp in enumerate(loops):
@@ -379,6 +383,8 @@ def run(chk, repo):
                    + ": PVGTraversal.stage visits a node only after ALL its in-edges were staged, so the node behind the edge (and everything only "
                    "reachable through it) is never visited - e.g. an in-graph '*' node of a stop-gain bubble starves the join node and all downstream peptides",
                    key=f"{fn.qual}::stage-all::{li}", fn=fn.qual)
+    if len(staged_fns) < 4:
+        raise AnalysisError(f"anchor=svgraph.PeptideVariantGraph: only {sorted(staged_fns)} of the four call_and_stage_* functions still loop over target_node.out_nodes")
     # ------------------------------------------------------------------ shared: option plumbing by name
     from rules.shared import optname
     chk.clauses.append('C05.j (shared R-THREAD) an option value bound to a name that is itself a CLI option carries that very option')
